@@ -347,7 +347,8 @@ func faultVariant(out *os.File, bseed int64, steps, at int, ft *memfile.Fault, p
 	rng := rand.New(rand.NewSource(bseed))
 	u := NewUniverse(rng, 14, false)
 	var sink *os.File = out
-	w := NewWorld(sink, rng, u, 0)
+	// every third base history with the pass-through hooks and a custom allocator installed
+	w := NewWorld(sink, rng, u, []int{0, cbBeforeWrite | cbAfterRead | cbAlloc, 0}[bseed%3])
 	w.prop = prop
 	w.noEvictIn = true
 	w.nEvents, w.cats = total.events, total.cats
